@@ -219,3 +219,36 @@ def bool_facts(fn, bb, _depth=0):
                         out.extend(bool_facts(fn, d.bb, _depth + 1))
             break
     return out
+
+
+def arm_return_values(fn, sw_bb=None):
+    """for a function that switches once on an enum discriminant of one of its parameters:
+    {label: value tree of _0 assigned inside that arm}; label may be 'A|B' for shared arms.
+    Returns (cond_tree, {label: value | None})"""
+    sws = enum_switches(fn)
+    if sw_bb is not None:
+        sws = [(b, i) for b, i in sws if b == sw_bb]
+    if len(sws) > 1:
+        # keep the outermost switch (drop elaboration re-tests the discriminant near the exit)
+        dom = fn.cfg.dom()
+        sws.sort(key=lambda x: len(dom.get(x[0], ())))
+        first = sws[0]
+        if all(first[0] in dom.get(b, ()) for b, _ in sws[1:]):
+            sws = [first]
+    if len(sws) != 1:
+        return None, {}
+    bb, info = sws[0]
+    P = prov.prov_of(fn)
+    by_target = {}
+    for lab, tgt in info['edges']:
+        by_target.setdefault(tgt, []).append(lab)
+    out = {}
+    for tgt, labs in by_target.items():
+        reg = region(fn, tgt)
+        vals = []
+        for d in P.defs:
+            if d.local == 0 and d.whole and d.bb in reg:
+                vals.append(P.def_value(d))
+        label = '|'.join(labs)
+        out[label] = prov.phi(vals) if vals else None
+    return info['cond'], out
